@@ -293,6 +293,7 @@ def fit_scipy(
                     options={"disp": 1, "gtol": gtol, "maxiter": maxiter},
                 )
             except LargeNumberError:
+                fcn.vm.remove_bound()
                 return except_result(fcn, x0.shape[0])
         elif jac is not True:
             try:
@@ -305,6 +306,7 @@ def fit_scipy(
                     options={"disp": 1, "gtol": gtol, "maxiter": maxiter},
                 )
             except LargeNumberError:
+                fcn.vm.remove_bound()
                 return except_result(fcn, x0.shape[0])
         else:
             try:
@@ -317,6 +319,7 @@ def fit_scipy(
                     options={"disp": 1, "gtol": gtol, "maxiter": maxiter},
                 )
             except LargeNumberError:
+                fcn.vm.remove_bound()
                 return except_result(fcn, x0.shape[0])
 
         while improve and not s.success:
